@@ -10,6 +10,7 @@ package main
 // the full store snapshot (lease fields included) is hashed before and after each call.
 
 import (
+	"net/http/httptest"
 	"context"
 	"crypto/sha256"
 	"encoding/hex"
@@ -137,6 +138,7 @@ type aaCfgIn struct {
 	Text     string            `json:"text"`
 	Env      map[string]string `json:"env"`
 	Files    map[string]string `json:"files"`
+	Vault    map[string]map[string]string `json:"vault"` // fake Vault KV: api path ("/v1/...") -> field -> value
 	Requests []aaReq           `json:"requests"`
 }
 
@@ -261,6 +263,24 @@ func apiAuthRun(in []byte) (any, error) {
 		co := aaCfgOut{}
 		for k, v := range c.Env {
 			_ = os.Setenv(k, v)
+		}
+		if len(c.Vault) > 0 {
+			// a fake Vault (KV v2 answers) on loopback for this configuration's vault: references
+			kv := c.Vault
+			vs := httptest.NewServer(http.HandlerFunc(func(w http.ResponseWriter, r *http.Request) {
+				fields, ok := kv[r.URL.Path]
+				if !ok || r.Header.Get("X-Vault-Token") != "verif-vault-token" {
+					w.WriteHeader(404)
+					_, _ = w.Write([]byte(`{"errors":["not found"]}`))
+					return
+				}
+				b, _ := json.Marshal(map[string]any{"data": map[string]any{"data": fields, "metadata": map[string]any{"version": 3}}})
+				w.Header().Set("Content-Type", "application/json")
+				_, _ = w.Write(b)
+			}))
+			defer vs.Close()
+			_ = os.Setenv("HOOKAIDO_VAULT_ADDR", vs.URL)
+			_ = os.Setenv("HOOKAIDO_VAULT_TOKEN", "verif-vault-token")
 		}
 		text := c.Text
 		for name, content := range c.Files {
